@@ -1,8 +1,9 @@
 from contracts.copying import CONTRACTS as _C
+from contracts.repaired import ClearArrays
 from contracts.surveys import CellCopyStub, EMCopy
 from contracts.copy_wf import CopiesKeepFilesValid
 from contracts.alignment import MaskedCopyNative
-CONTRACTS = list(_C) + [CellCopyStub, EMCopy, CopiesKeepFilesValid, MaskedCopyNative]
+CONTRACTS = list(_C) + [CellCopyStub, EMCopy, CopiesKeepFilesValid, MaskedCopyNative] + [ClearArrays]
 
 MANIFEST = {
     "category": "proof",
